@@ -223,7 +223,7 @@ func (c *Check) finish(explanation string) int {
 	}
 	var samples []interface{}
 	step := 1
-	if len(c.Obls) > 12 {
+	if len(c.Obls) > 12 && os.Getenv("SVCLINT_ALL_OBLIGATIONS") == "" {
 		step = len(c.Obls) / 12
 	}
 	for i := 0; i < len(c.Obls); i += step {
